@@ -378,7 +378,7 @@ var (
 	paramSegs  = []string{"{x}", "{y}", "{z}", "a{x}", "ab{y}", "foo{z}"}
 	catchSegs  = []string{"*{w}", "*{v}", "a*{w}", "foo*{v}"}
 	hostPats   = []string{"a.b", "a.{t}", "{s}.b", "{s}.{t}", "b{s}.c", "a.b.c", "{s}.b.c", "a.{t}.c", "ab.b", "a{s}.b", "example.com", "{sub}.example.com"}
-	valuePool  = []string{"a", "b", "ab", "abc", "c", "x1", "foo", "foobar", "fo", "zz", "*abc", "{x}", "a.b", "b-c"}
+	valuePool  = []string{"a", "b", "ab", "abc", "c", "x1", "foo", "foobar", "fo", "zz", "*abc", "{x}", "a.b", "b-c", ".", ".."}
 	labelPool  = []string{"a", "b", "ab", "c", "x1", "foo", "example", "com", "bc"}
 	methodPool = []string{"GET", "GET", "GET", "POST", "POST", "PUT", "DELETE", "PATCH", "CONNECT", "OPTIONS", "FOO"}
 )
